@@ -976,9 +976,12 @@ def m_str_split(I, s, args, kwargs, node):
     if maxsplit is not None:
         raise Unsupported("symbolic split with maxsplit", node)
     r = split_of(x, sep)
-    # ground lemmas (audited): at least one part, every part is a str without the separator is NOT
-    # assumed here; contracts that need more add the instances they use
+    # ground lemmas (audited): at least one part; contracts that need more (split over concatenation, element
+    # types) add the instances they use through ctx.split_hook
     I.assume(z3.Length(r) >= 1)
+    h = getattr(I.ctx, "split_hook", None)
+    if h is not None:
+        h(I, x, sep, r)
     return V.VList(r)
 
 
